@@ -7,7 +7,7 @@
    range yields [Oob] (this is how index safety is stated and how an out-of-range access of the
    C loop would show in the model).  Definitions only; lemmas are in Proofs/. *)
 From Coq Require Import ZArith List Bool FMapPositive.
-From Centro Require Import Base.Sx Base.ReconSort.
+From Centro Require Import Base.Sx Base.ReconSort Model.RankC18.
 Import ListNotations.
 Open Scope Z_scope.
 
@@ -58,15 +58,16 @@ Definition width {A} (g : list (list A)) : Z := zlen (hd [] g).
 
 (* footprint offsets, centre crossed out, in the row-major order of
    footprint_mgrid[:, footprint].transpose() *)
-Definition fp_offsets (fp : list (list bool)) : list (Z * Z) :=
+Definition fp_offsets_at (fp : list (list bool)) (o0 o1 : Z) : list (Z * Z) :=
   let fh := zlen fp in
   let fw := width fp in
-  let o0 := fh / 2 in
-  let o1 := fw / 2 in
   flat_map (fun a =>
     flat_map (fun b =>
       if fp_get fp a b && negb ((a =? o0) && (b =? o1)) then [(a - o0, b - o1)] else [])
       (zrange fw)) (zrange fh).
+(* offset=None: offset = footprint.shape // 2 *)
+Definition fp_offsets (fp : list (list bool)) : list (Z * Z) :=
+  fp_offsets_at fp (zlen fp / 2) (width fp / 2).
 
 (* ------------------------------------------------------------------ the C loop *)
 Record st : Type := mkst { vals : arr; prv : arr; nxt : arr; drops : Z }.
@@ -136,21 +137,12 @@ Fixpoint link_pairs (l : list Z) (pn : arr * arr) : arr * arr :=
   | _ => pn
   end.
 
-(* rankorder.rank_order (nbins=None): returns (int_image, original_values) *)
-Definition rank_step (acc : Z * Z * list (Z * Z) * list Z) (vi : Z * Z) :=
-  let '(pv, r, ranks, orig) := acc in
-  let '(v, i) := vi in
-  if v =? pv then (v, r, (i, r) :: ranks, orig)              (* is_different false *)
-  else (v, r + 1, (i, r + 1) :: ranks, v :: orig).           (* cumsum(is_different) *)
-
+(* rankorder.rank_order (nbins=None) is the C18 model Model.RankC18.rank_order (line-level, proved
+   an order isomorphism in Proofs.RankC18Proofs); here only its result is packed into arrays:
+   returns (int_image, original_values) *)
 Definition rank_order (values : list Z) : arr * list Z :=
-  let sorted := AscSort.sort (combine values (zrange (zlen values))) in  (* argsort *)
-  match sorted with
-  | [] => (PositiveMap.empty Z, [])
-  | (v0, i0) :: rest =>
-      let '(_, _, ranks, orig) := fold_left rank_step rest (v0, 0, [(i0, 0)], [v0]) in
-      (fold_left (fun a ir => put a (fst ir) (snd ir)) ranks (PositiveMap.empty Z), rev orig)
-  end.
+  let rk := RankC18.rank_order values in
+  (of_list (map Z.of_nat (fst rk)), snd rk).
 
 Record prep : Type := mkprep {
   p_H : Z; p_W : Z; p_p0 : Z; p_p1 : Z; p_PW : Z; p_S : Z;
@@ -160,15 +152,17 @@ Definition all_le (a b : list (list Z)) : bool :=
   forallb (fun rr => forallb (fun xy => fst xy <=? snd xy) (combine (fst rr) (snd rr))) (combine a b).
 
 (* the asserts at the top of grey_reconstruction (and the non-empty image np.min needs) *)
-Definition accepted (image mask : list (list Z)) (fp : list (list bool)) : bool :=
+Definition accepted_common (image mask : list (list Z)) (fp : list (list bool)) : bool :=
   let H := zlen image in
   let W := width image in
   (1 <=? H) && (1 <=? W) && rect image W &&
   (zlen mask =? H) && rect mask W &&                     (* image.shape == mask.shape *)
   all_le image mask &&                                   (* np.all(image <= mask) *)
-  rect fp (width fp) && Z.odd (zlen fp) && Z.odd (width fp).   (* footprint dimensions odd *)
+  rect fp (width fp).
+Definition accepted (image mask : list (list Z)) (fp : list (list bool)) : bool :=
+  accepted_common image mask fp && Z.odd (zlen fp) && Z.odd (width fp).   (* footprint dimensions odd *)
 
-Definition prepare (image mask : list (list Z)) (fp : list (list bool)) : prep :=
+Definition prepare_offs (image mask : list (list Z)) (fp : list (list bool)) (offs : list (Z * Z)) : prep :=
   let H := zlen image in
   let W := width image in
   let p0 := zlen fp / 2 in                                (* padding = footprint.shape // 2 *)
@@ -178,13 +172,16 @@ Definition prepare (image mask : list (list Z)) (fp : list (list bool)) : prep :
   let S := PH * PW in                                     (* image_stride *)
   let mn := img_min image in
   let values := padded_plane H W p0 p1 mn image ++ padded_plane H W p0 p1 mn mask in
-  let strides := map (fun o => fst o * PW + snd o) (fp_offsets fp) in
+  let strides := map (fun o => fst o * PW + snd o) offs in
   let order := map snd (DescSort.sort (combine values (zrange (2 * S)))) in  (* np.lexsort([-values]) *)
   let minus1 := of_list (repeat (-1) (Z.to_nat (2 * S))) in
   let pn := link_pairs order (minus1, minus1) in
   let rk := rank_order values in
   mkprep H W p0 p1 PW S strides (hd (-1) order)
          (mkst (fst rk) (fst pn) (snd pn) 0) (of_list (snd rk)) (zlen (snd rk)).
+
+Definition prepare (image mask : list (list Z)) (fp : list (list bool)) : prep :=
+  prepare_offs image mask fp (fp_offsets fp).
 
 (* value_map[values[:image_stride]] reshaped, inside slices *)
 Definition finish (p : prep) (s : st) : res (list (list Z)) :=
@@ -193,22 +190,40 @@ Definition finish (p : prep) (s : st) : res (list (list Z)) :=
       do k <- rd (vals s) ((r + p_p0 p) * p_PW p + (c + p_p1 p));
       rd (p_vmap p) k) (zrange (p_W p))) (zrange (p_H p)).
 
+Definition run_prep (p : prep) : res (list (list Z) * Z) :=
+  do s <- loop (Datatypes.S (Z.to_nat (2 * p_S p))) (p_S p) (p_strides p) (p_cur p) (p_st p);
+  do out <- finish p s;
+  Ok (out, drops s).
+
+(* offset=None *)
 Definition grey_reconstruction (image mask : list (list Z)) (fp : list (list bool))
   : res (list (list Z) * Z) :=
-  if negb (accepted image mask fp) then Rejected
-  else
-    let p := prepare image mask fp in
-    do s <- loop (Datatypes.S (Z.to_nat (2 * p_S p))) (p_S p) (p_strides p) (p_cur p) (p_st p);
-    do out <- finish p s;
-    Ok (out, drops s).
+  if negb (accepted image mask fp) then Rejected else run_prep (prepare image mask fp).
+
+(* explicit offset=(o0, o1): no oddness assert; the footprint origin is the given cell, the padding
+   is still footprint.shape // 2 (so an origin away from the centre can reach beyond the padding:
+   the model then reads the neighbouring row / the other plane exactly like the C code, or reports
+   Oob where the C code would read outside its arrays) *)
+Definition grey_reconstruction_off (image mask : list (list Z)) (fp : list (list bool)) (o0 o1 : Z)
+  : res (list (list Z) * Z) :=
+  if negb (accepted_common image mask fp) then Rejected
+  else run_prep (prepare_offs image mask fp (fp_offsets_at fp o0 o1)).
 
 (* ------------------------------------------------------------------ wire entry *)
-(* (image mask footprint) -> (grid drops) | (code): 1 out-of-bounds access, 2 out of fuel,
-   3 rejected by the asserts *)
-Definition entry_recon (x : sx) : sx :=
-  match grey_reconstruction (as_Zss (arg 0 x)) (as_Zss (arg 1 x)) (as_boolss (arg 2 x)) with
+(* (image mask footprint offset) -> (grid drops) | (code): 1 out-of-bounds access, 2 out of fuel,
+   3 rejected by the asserts; offset = () for None or (o0 o1) *)
+Definition res_sx (r : res (list (list Z) * Z)) : sx :=
+  match r with
   | Ok (g, d) => L [of_Zss g; I d]
   | Oob => L [I 1]
   | OutOfFuel => L [I 2]
   | Rejected => L [I 3]
+  end.
+Definition entry_recon (x : sx) : sx :=
+  let image := as_Zss (arg 0 x) in
+  let mask := as_Zss (arg 1 x) in
+  let fp := as_boolss (arg 2 x) in
+  match as_Zs (arg 3 x) with
+  | [o0; o1] => res_sx (grey_reconstruction_off image mask fp o0 o1)
+  | _ => res_sx (grey_reconstruction image mask fp)
   end.
